@@ -390,7 +390,30 @@ func (p *prov) load(x *ssa.UnOp) labelSet {
 	case *ssa.FieldAddr:
 		owner, f := fieldAddrInfo(a)
 		if owner == nil {
-			return p.unknown(x, "field of unnamed struct")
+			// a field of an anonymous struct (a local table of steps / columns): what the same
+			// function stores into that field of a value of the identical type
+			fn := x.Parent()
+			found := false
+			if fn != nil {
+				for _, b := range fn.Blocks {
+					for _, ins := range b.Instrs {
+						st, ok := ins.(*ssa.Store)
+						if !ok {
+							continue
+						}
+						fa2, ok := st.Addr.(*ssa.FieldAddr)
+						if !ok || fa2.Field != a.Field || !types.Identical(fa2.X.Type(), a.X.Type()) {
+							continue
+						}
+						found = true
+						out.addAll(p.val(st.Val))
+					}
+				}
+			}
+			if !found {
+				return p.unknown(x, "field of unnamed struct")
+			}
+			return out
 		}
 		out.addAll(p.fieldLoad(fieldKey{owner.Obj(), f.Name()}, x))
 		out.addAll(p.reachLabels(a.X))
@@ -834,14 +857,25 @@ func (p *prov) ClassifyAt(v ssa.Value, b *ssa.BasicBlock) labelSet {
 // result is definitely false whenever p == *G for a package-level G (e.g.
 // `return pl != nil && pl != emptyPostingsList`).  Returns the parameter index
 // and the globals excluded by a true result.
-var predicateCache = map[*ssa.Function]map[int][]*ssa.Global{}
+type predicateKey struct {
+	fn     *ssa.Function
+	result bool
+}
 
-func predicateExcludes(fn *ssa.Function) map[int][]*ssa.Global {
-	if r, ok := predicateCache[fn]; ok {
+var predicateCache = map[predicateKey]map[int][]*ssa.Global{}
+
+// predicateExcludes(fn, result): the globals a parameter cannot be when fn
+// returns `result` (true: `pl != nil && pl != emptyX`; false: `pl == nil || pl == emptyX`).
+func predicateExcludes(fn *ssa.Function, result bool) map[int][]*ssa.Global {
+	if r, ok := predicateCache[predicateKey{fn, result}]; ok {
 		return r
 	}
 	out := map[int][]*ssa.Global{}
-	predicateCache[fn] = out
+	predicateCache[predicateKey{fn, result}] = out
+	mustReturn := triFalse // assuming p == *G
+	if !result {
+		mustReturn = triTrue
+	}
 	if fn == nil || fn.Blocks == nil || len(fn.Blocks) > 12 || fn.Signature.Results().Len() != 1 || !isBoolType(fn.Signature.Results().At(0).Type()) {
 		return out
 	}
@@ -886,7 +920,7 @@ func predicateExcludes(fn *ssa.Function) map[int][]*ssa.Global {
 		}
 	}
 	for _, cm := range cmps {
-		// assume p == *G; every reachable return must return false
+		// assume p == *G; every reachable return must return the opposite of `result`
 		var eval func(v ssa.Value, path []*ssa.BasicBlock) tri
 		eval = func(v ssa.Value, path []*ssa.BasicBlock) tri {
 			if neg, ok := isCmp(v, cm.pi, cm.g); ok {
@@ -931,7 +965,7 @@ func predicateExcludes(fn *ssa.Function) map[int][]*ssa.Global {
 			switch last := b.Instrs[len(b.Instrs)-1].(type) {
 			case *ssa.Return:
 				nret++
-				if eval(last.Results[0], path) != triFalse {
+				if eval(last.Results[0], path) != mustReturn {
 					okAll = false
 				}
 			case *ssa.If:
@@ -982,10 +1016,7 @@ func predicateEdge(cond ssa.Value, v ssa.Value, trueEdge bool) []*ssa.Global {
 	if !ok || call.Call.StaticCallee() == nil {
 		return nil
 	}
-	if trueEdge == neg {
-		return nil // the predicate is false on this edge
-	}
-	ex := predicateExcludes(call.Call.StaticCallee())
+	ex := predicateExcludes(call.Call.StaticCallee(), trueEdge != neg)
 	var out []*ssa.Global
 	for pi, gs := range ex {
 		if pi < len(call.Call.Args) && call.Call.Args[pi] == v {
